@@ -19,7 +19,7 @@ static const char* vname(Verdict v) { return v == Verdict::Valid ? "valid" : v =
 struct Case { std::string bytes; int nfds = 0; std::string desc; std::string op1, op2; };
 
 static void fail(const char* kind, const Case& c, const std::string& what) {
-  violation(kind, what + "\ncase: " + c.desc + " ops=[" + c.op1 + "," + c.op2 + "] nfds=" + std::to_string(c.nfds) + " len=" + std::to_string(c.bytes.size()) + "\nbytes(hex)=" + hex(c.bytes, 1024));
+  violation(kind, what + "\ncase: " + c.desc + " ops=[" + c.op1 + "," + c.op2 + "] nfds=" + std::to_string(c.nfds) + " len=" + std::to_string(c.bytes.size()) + "\nbytes(hex)=" + hex(c.bytes, 200));
 }
 
 static char* exact_copy(const std::string& b) {
